@@ -579,6 +579,67 @@ def domain_tolerance_stream(ctx, n):
         ctx.traces_validated += 1
 
 
+def int_vs_float_stream(ctx, n):
+    """a column (csv) / point field (.vtu) that one producer wrote as whole numbers (integer type) and the other as floating-point
+    numbers: it is compared with the tolerance formula (one side holds floats), so a deviation within the global or per-field
+    tolerance passes and one beyond it fails — in both roles"""
+    rng = ctx.rng
+    for it in range(n):
+        d = os.path.join(str(ctx.workdir), f"ivf{it}")
+        os.makedirs(d)
+        k = rng.randint(2, 5)
+        ints = [rng.randint(1, 40) * 10 for _ in range(k)]
+        j = rng.randrange(k)
+        dev = rng.choice([Fr(3, 10 ** 6), Fr(1, 10 ** 4)])            # relative deviation of entry j
+        tol = rng.choice([Fr(1, 10 ** 3), Fr(1, 10 ** 5), Fr(1, 10 ** 7)])
+        floats = [float(v) for v in ints]
+        floats[j] = float(Fr(ints[j]) * (1 + dev))
+        form = rng.choice(["csv", "vtu"])
+        how = rng.choice(["-rtol global", "-rtol field", "-atol field"])
+        if form == "csv":
+            fi, ff = os.path.join(d, "i.csv"), os.path.join(d, "f.csv")
+            write_csv(fi, ["t", "load"], [[0.5 * i for i in range(k)], ints])
+            write_csv(ff, ["t", "load"], [[0.5 * i for i in range(k)], floats])
+            extra = ["--read-as", DSV_OPT]
+        else:
+            pts = [[float(i), 0.0, 0.0] for i in range(k)]
+            cells = [(3, [i, i + 1]) for i in range(k - 1)]
+            fi, ff = os.path.join(d, "i.vtu"), os.path.join(d, "f.vtu")
+            V.write_vtu(fi, pts, cells, [("load", "Int32", 1, ints)], [], V.Cfg("ascii"))
+            V.write_vtu(ff, pts, cells, [("load", "Float64", 1, floats)], [], V.Cfg("ascii"))
+            extra = []
+        if how == "-rtol global":
+            targs = ["-rtol", repr(float(tol))]
+        elif how == "-rtol field":
+            targs = ["-rtol", f"load:{float(tol)!r}"]
+        else:
+            targs = ["-atol", f"load:{float(tol * 400)!r}"]          # (absolute: scaled to the largest entry)
+        allowed = tol * 400 if how == "-atol field" else tol * max(Fr(ints[j]), Fr(floats[j]))
+        deviation = abs(Fr(floats[j]) - ints[j])
+        if allowed / 2 < deviation < allowed * 2:
+            shutil.rmtree(d, ignore_errors=True)
+            continue
+        want_zero = deviation <= allowed
+        for role in ("ints_are_result", "ints_are_reference"):
+            a, b = (fi, ff) if role == "ints_are_result" else (ff, fi)
+            with warnings.catch_warnings():
+                warnings.simplefilter("ignore")
+                rc, log, exc = run_cli(["file", a, b, "--verbosity", "0"] + extra + targs)
+            canon_ = {"int_vs_float": {"format": form, "ints": ints, "entry": j, "relative_deviation": str(dev), "tolerance": how,
+                                       "value": str(tol), "role": role}}
+            ctx.case(canon_, True, sample={"case": canon_, "exit": rc})
+            ctx.count(f"int vs float field:{form}:{how}:{'within' if want_zero else 'beyond'}")
+            ctx.tie("T2 integer-typed vs floating-point field through the command line: exit status = statement")
+            if exc:
+                ctx.violation("E4", f"exception escaped the CLI entry point: {exc}", canon_)
+            elif (rc == 0) != want_zero:
+                ctx.violation("E4", f"exit code {rc} for a field stored as integers on one side and as floats on the other, deviation "
+                                    f"{float(deviation):.3g} {'within' if want_zero else 'beyond'} the tolerance ({how} {float(tol):.3g}): the "
+                                    f"statement requires {'0' if want_zero else 'non-zero'}", canon_)
+            ctx.traces_validated += 1
+        shutil.rmtree(d, ignore_errors=True)
+
+
 def mesh_option_matrix(ctx, n_meshes):
     """EVERY combination of the three mesh options (--disable-mesh-reordering, --disable-mesh-orphan-point-removal,
     --disable-mesh-space-dimension-matching) x {same / other space dimension} x {same / other storage order} x {no / one
@@ -656,6 +717,7 @@ def run(ctx):
     from . import globtie
     globtie.tie(ctx, 600 if ctx.tier == "quick" else 15000, "--include-fields / --exclude-fields")
     mesh_option_matrix(ctx, 2 if ctx.tier == "quick" else 30)
+    int_vs_float_stream(ctx, 40 if ctx.tier == "quick" else 1000)
     n = 1500 if ctx.tier == "quick" else 40000
     scs = gen_scenarios(ctx.rng, n)
     impls = [run_impl(sc, str(ctx.workdir), i, want_junit=False) for i, sc in enumerate(scs)]
